@@ -105,14 +105,21 @@ def mut_f(root):
     s = open(p).read()
     i = s.index("class LocateResponsePayload")
     seg = s[i:]
-    seg = seg.replace("unique_identifier = primitives.TextString(", "uid_item = primitives.TextString(", 1)
-    seg = seg.replace("            unique_identifier.read(\n", "            uid_item.read(\n", 1)
-    seg = seg.replace("self._unique_identifiers.append(unique_identifier)", "self._unique_identifiers.append(uid_item)", 1)
-    assert seg != s[i:]
+    a = seg.index("            unique_identifier = primitives.TextString(")
+    b = seg.index("self._unique_identifiers.append(unique_identifier)", a) + len("self._unique_identifiers.append(unique_identifier)")
+    seg = seg[:a] + seg[a:b].replace("unique_identifier", "uid_item").replace("self._uid_items", "self._unique_identifiers") + seg[b:]
+    assert "uid_item.read(" in seg
     open(p, "w").write(s[:i] + seg)
     p = os.path.join(root, "kmip/core/messages/payloads/get_attributes.py")
     edit(p, "        names = list()\n        if kmip_version < enums.KMIPVersion.KMIP_2_0:\n            while self.is_tag_next(enums.Tags.ATTRIBUTE_NAME",
          "        names = []\n        if kmip_version < enums.KMIPVersion.KMIP_2_0:\n            while self.is_tag_next(enums.Tags.ATTRIBUTE_NAME")
+    # a presence test written the other way, and a new local used only for an error message
+    p = os.path.join(root, "kmip/core/messages/payloads/activate.py")
+    edit(p, "        if self.unique_identifier is not None:\n            self.unique_identifier.write(tstream",
+         "        if self.unique_identifier:\n            self.unique_identifier.write(tstream")
+    p = os.path.join(root, "kmip/core/messages/payloads/decrypt.py")
+    edit(p, "            raise ValueError(\"invalid payload missing the data attribute\")",
+         "            what = \"data\"\n            raise ValueError(\"invalid payload missing the %s attribute\" % what)")
 
 
 MUTANTS = [("a: swap two field writes (CheckRequestPayload.write)", mut_a, True),
@@ -120,7 +127,7 @@ MUTANTS = [("a: swap two field writes (CheckRequestPayload.write)", mut_a, True)
            ("c: mandatory unique identifier made optional (CreateResponsePayload.read)", mut_c, True),
            ("d: read() stores Batch Undo Capability in the Batch Continue attribute (CapabilityInformation.read)", mut_d, True),
            ("e: write() forgets the server correlation value (ResponseHeader.write)", mut_e, True),
-           ("f: harmless rewrites (local variable renamed, list() -> [])", mut_f, False)]
+           ("f: harmless rewrites (local renamed, list() -> [], `is not None` dropped, message built in a local)", mut_f, False)]
 
 
 def theorems_at(lines_failed):
